@@ -8,11 +8,11 @@
  *   In both, make_float<double/float> are replaced by precondition-checking stubs in the CBMC build; the native replay
  *   build runs the real make_float and compares the final result with libc strtod.
  *     - integer literals in [-2^63, 2^64) parse to exactly that integer, any number of leading zeros
- *     - integer literals beyond that range keep their decimal magnitude                    (fails today: 2^64 .. 2^64+3 ...)
+ *     - integer literals beyond that range keep their decimal magnitude            (F4, fixed 6206228: 2^64 .. 2^64+3 ...)
  *     - the (mantissa, exponent) pair handed to make_float denotes the literal's decimal magnitude
- *     - make_float's table precondition |e| <= 511 (double) / 63 (float) at every call site   (fails today: long strings)
- *     - the float path is taken only when the value fits a float                                    (fails today: 10e38)
- *     - the early exits of the exponent loop: +/-0 only below 1e-300 (fails today: 1000000000e-309), +/-inf only above 1e300
+ *     - make_float's table precondition |e| <= 511 (double) / 63 (float) at every call site (F7, fixed d3fba6e: long strings)
+ *     - a float infinity is never returned for a value that a double holds                         (F5, fixed efa0a97: 10e38)
+ *     - +/-0 only below 1e-300 (F6, fixed d3fba6e: 1000000000e-309) or for a zero mantissa (0e999), +/-inf only above 1e300
  *     - grammar: accepted exactly [+-]? (digits ('.' digits?)? | '.' digits) ([eE][+-]?digits)?
  *     - the scan reads only up to the first NUL
  *   UNIT_MF      make_float<double,int> / make_float<float,int> alone: table bounds for every e under the precondition;
@@ -221,11 +221,14 @@ static int spec_ndigits(double m) {
 }
 /* m * 10^e <= FLT_MAX = 3.4028234664e38 for an integer m < 2^24: every m * 10^31 is far inside; from 1e32 up the value is
  * a multiple of 1e32 and FLT_MAX / 1e32 = 3402823.46..: m * 10^(e-32) <= 3402823, i.e. m <= floor(3402823 / 10^(e-32)) */
-static _Bool spec_fits_float(float m, int e) {
+static float thr_fits_float(int e) { /* 32 <= e <= 38 */
   static const float thr[7] = {3402823.0f, 340282.0f, 34028.0f, 3402.0f, 340.0f, 34.0f, 3.0f};
+  return thr[e - 32];
+}
+static _Bool spec_fits_float(float m, int e) {
   if (m == 0.0f || e <= 31) return 1;
   if (e >= 39) return 0;
-  return m <= thr[e - 32];
+  return m <= thr_fits_float(e);
 }
 
 /* ---- make_float stubs (CBMC build): record the call, check the callee's precondition ------------------------------- */
@@ -234,7 +237,7 @@ enum { CK_TABLE = 1, CK_MAG = 2, CK_FLOATFIT = 4, CK_ZERO_EXIT = 8, CK_INF_EXIT 
  * the same names (the driver matches a native failure to the cbmc failure by name) */
 #define D_TABLE_D "make_float<double> precondition: |e| <= 511, the nine-entry power-of-ten tables"
 #define D_TABLE_F "make_float<float> precondition: |e| <= 63, the six-entry power-of-ten tables"
-#define D_FLOATFIT "the float path is taken only when the value does not exceed FLT_MAX (a value <= 1e300 never becomes infinity)"
+#define D_FLOATFIT "a float computation that exceeds FLT_MAX is redone as a double (a value <= 1e300 never becomes infinity)"
 #define D_FLOATLOW "the float path is taken only when the value is not below the smallest positive float (never +/-0 for a non-zero value)"
 #define D_ZERO "+/-0 is returned only for a value below 1e-300"
 #define D_INF "+/-infinity is returned only for a value above 1e300"
@@ -243,15 +246,16 @@ enum { CK_TABLE = 1, CK_MAG = 2, CK_FLOATFIT = 4, CK_ZERO_EXIT = 8, CK_INF_EXIT 
 static unsigned g_checks;
 static unsigned g_mf_calls;
 static _Bool g_mf_double;
+static _Bool g_mf_f_overflow; /* the float computation was asked for a value beyond FLT_MAX and answered infinity */
 static double g_mf_m; /* the mantissa handed over (a float widens exactly) */
 static int g_mf_e;
 #define MARK_D 3.0
 #define MARK_F 5.0f
 #ifdef CANARY_LIT
 #define CANARY_TABLE(e) ((e) != 7)
-#define CANARY_FIT(m, e) (!((m) == 77.0f && (e) == 0))
-#define CANARY_P(p) ((p) == 7 || (p) == 300)
-#define CANARY_EXIT(p) ((p) != 400 && (p) != -400)
+#define CANARY_FIT(m, e) (!((m) == 77.0 && (e) == 0))
+#define CANARY_P(p) ((p) == 7 || (p) == 21 || (p) == 300)
+#define CANARY_EXIT(p) ((p) != 400 && (p) != -400 && (p) != 600)
 #else
 #define CANARY_TABLE(e) 1
 #define CANARY_FIT(m, e) 1
@@ -259,6 +263,7 @@ static int g_mf_e;
 #define CANARY_EXIT(p) 1
 #endif
 #ifndef VERIF_NATIVE
+_Bool nondet_tip(void); /* no body: an arbitrary value (not an input of the harness: the native build runs the real make_float) */
 double make_float_double_int(double m, int e) {
   g_mf_calls++;
   g_mf_double = 1;
@@ -277,11 +282,13 @@ float make_float_float_int(float m, int e) {
   CHECK(m >= 0.0f && m < 0x1p24f, "the mantissa handed to make_float<float> is non-negative and below 2^24 (converted exactly)");
   if (g_checks & CK_TABLE)
     CHECK(e >= -63 && e <= 63 && CANARY_TABLE(e), D_TABLE_F);
-  if (g_checks & CK_FLOATFIT)
-    CHECK(spec_fits_float(m, e) && CANARY_FIT(m, e), D_FLOATFIT);
   if (g_checks & CK_MAG)
     CHECK(m == 0.0f || e >= -44, D_FLOATLOW);
-  return MARK_F;
+  /* contract of the real make_float<float>: the product, which is infinity when m x 10^e exceeds FLT_MAX; within 1e-4 of
+   * that border the roundings of the multiplication chain may tip it either way (both answers are allowed here) */
+  _Bool near_border = e >= 32 && e <= 38 && m > thr_fits_float(e) * 0.9999f;
+  g_mf_f_overflow = !spec_fits_float(m, e) || (near_border && nondet_tip());
+  return g_mf_f_overflow ? __builtin_inff() : MARK_F;
 }
 #endif
 
@@ -418,6 +425,7 @@ static void pn_call(struct pn_case *c, unsigned checks) {
   g_mf_m = 0.0;
   g_mf_e = 0;
   g_mf_double = 0;
+  g_mf_f_overflow = 0;
   c->r = parseNumber(c->s);
 }
 static void pn_done(struct pn_case *c) {
@@ -457,7 +465,7 @@ static void pn_check_floating(struct pn_case *c, unsigned checks) {
   if (!checks) CHECK(ok, "the final value has the magnitude of the literal");
 #else
   if (g_mf_calls == 0) {
-    /* no make_float: one of the two early exits of the exponent loop */
+    /* no make_float: the value is out of range (or zero) whatever the mantissa */
     _Bool is_zero = t == NT_FLOAT && (f32_bits(c->r.value_.asFloat) & 0x7fffffffu) == 0;
     _Bool is_inf = t == NT_DOUBLE && (f64_bits(c->r.value_.asDouble) & 0x7fffffffffffffffull) == 0x7ff0000000000000ull;
     CHECK(is_zero || is_inf, "a floating result not made by make_float is +/-0 or +/-infinity");
@@ -466,7 +474,10 @@ static void pn_check_floating(struct pn_case *c, unsigned checks) {
     if (checks & CK_INF_EXIT)
       CHECK(!is_inf || (lit_above(li) && CANARY_EXIT(li->p)), D_INF);
   } else {
-    CHECK(g_mf_calls == 1, "make_float is called once");
+    CHECK(g_mf_calls == 1 || (g_mf_calls == 2 && g_mf_f_overflow && g_mf_double),
+          "make_float is called once, or once more as a double when the float computation overflowed");
+    if (checks & CK_FLOATFIT)
+      CHECK(!(g_mf_f_overflow && !g_mf_double) && CANARY_FIT(g_mf_m, g_mf_e), D_FLOATFIT);
     CHECK(g_mf_double ? (t == NT_DOUBLE && (c->r.value_.asDouble == MARK_D || c->r.value_.asDouble == -MARK_D))
                       : (t == NT_FLOAT && (c->r.value_.asFloat == MARK_F || c->r.value_.asFloat == -MARK_F)),
           "the value made by make_float is returned with the literal's sign applied and nothing else");
@@ -510,12 +521,6 @@ void h_int_overflow_magnitude(void) {
   struct pn_case c;
   pn_input(&c);
   __CPROVER_assume(c.li.is_integer && !lit_int_fits(&c.li));
-#ifdef ONLY_F4_FAMILY
-  __CPROVER_assume(c.li.f4_family);
-#endif
-#ifdef NOT_F4_FAMILY
-  __CPROVER_assume(!c.li.f4_family);
-#endif
   pn_call(&c, CK_MAG);
   COVER(!c.li.neg && c.li.nint == 20 && c.s[c.n - 1] == '9' && c.s[0] == '1');
   COVER(c.li.neg && !c.li.big && c.li.V == ((uint64_t)1 << 63) + 1);
@@ -529,11 +534,6 @@ static unsigned lit_run(unsigned checks) {
   struct pn_case c;
   pn_input(&c);
   __CPROVER_assume(c.li.strict && !lit_int_fits(&c.li));
-  /* 2^64 .. 2^64+3 and every literal whose integer digits start that way: obligation int_overflow_magnitude */
-  __CPROVER_assume(!c.li.f4_family);
-#ifdef LIT_NONZERO
-  __CPROVER_assume(c.li.nonzero); /* 0e999 -> inf is outside the stated range of C12 (v == 0): reported, not demanded */
-#endif
   /* the class of literals may be split by shape to keep each solver run small (the obligations of a split cover the class) */
 #ifdef SHAPE_E
   __CPROVER_assume(c.li.has_e == SHAPE_E);
@@ -557,6 +557,8 @@ static unsigned lit_run(unsigned checks) {
   m |= (c.li.nfrac > 2 && c.li.nexp > 0 && c.li.neg) ? 64u : 0u;
   m |= (g_mf_calls == 1 && !g_mf_double && g_mf_e == 38) ? 128u : 0u;
   m |= (c.n == PN_N) ? 256u : 0u;
+  m |= (g_mf_calls == 2) ? 512u : 0u;
+  m |= (!c.li.nonzero && c.li.E > 400) ? 1024u : 0u; /* 0e999 */
 #endif
   pn_done(&c);
   return m;
@@ -566,7 +568,7 @@ static unsigned lit_run(unsigned checks) {
 #else
 #define LIT_COVER_FRACTION(m) ((void)0) /* no room for "-.123e1" / the family has no fraction */
 #endif
-#define LIT_COVERS(m) COVER(m & 1u); COVER(m & 2u); COVER(m & 4u); COVER(m & 8u); COVER(m & 16u); COVER(m & 32u); LIT_COVER_FRACTION(m); COVER(m & 128u); COVER(m & 256u)
+#define LIT_COVERS(m) COVER(m & 1u); COVER(m & 2u); COVER(m & 4u); COVER(m & 8u); COVER(m & 16u); COVER(m & 32u); LIT_COVER_FRACTION(m); COVER(m & 128u); COVER(m & 256u); COVER(m & 512u); COVER(m & 1024u)
 void h_lit_sound(void) { unsigned m = lit_run(CK_MAG | CK_TABLE | CK_INF_EXIT); LIT_COVERS(m); }
 void h_lit_magnitude(void) { unsigned m = lit_run(CK_MAG); LIT_COVERS(m); }
 void h_lit_table(void) { unsigned m = lit_run(CK_TABLE); LIT_COVERS(m); }
@@ -617,25 +619,10 @@ void h_grammar_rejects(void) {
   CHECK(c.r.type_ == NT_INVALID && !CANARY_REJ(c), "everything outside [+-]? (digits ('.' digits?)? | '.' digits) ([eE][+-]?digits)? is Invalid");
   pn_done(&c);
 }
-/* the disagreement of h_grammar_rejects made precise: apart from empty digit groups (".", "1e", "1e+", ".e5") nothing else is accepted */
-void h_grammar_rejects_beyond_empty_digit_groups(void) {
-  struct pn_case c;
-  pn_input(&c);
-  __CPROVER_assume(!c.li.lenient && !OPTION_LETTER(c));
-  pn_call(&c, 0);
-  COVER(c.n == 0);
-  COVER(c.n == PN_N);
-  COVER(c.n > 3 && c.s[0] == '1' && c.s[1] == 'e' && c.s[2] == '1');
-  COVER(c.li.E > 400);
-  CHECK(c.r.type_ == NT_INVALID && !CANARY_REJ(c), "everything outside the grammar with possibly empty digit groups is Invalid");
-  pn_done(&c);
-}
-
 /* ---- E + C. any string: the scan reads only up to the first NUL; grammar in both directions (lenient form) ------------------ */
 void h_any_string(void) {
   struct pn_case c;
   pn_input(&c);
-  __CPROVER_assume(!c.li.f4_family); /* 2^64 .. 2^64+3 and every string starting that way: obligation int_overflow_magnitude */
 #ifdef CANARY_SCAN
   /* the block ends before a NUL was seen whenever the string is "1234" */
   if (c.n == 4 && c.s[0] == '1' && c.s[1] == '2' && c.s[2] == '3' && c.s[3] == '4') c.s[4] = '5';
@@ -647,12 +634,12 @@ void h_any_string(void) {
   COVER(c.r.type_ == NT_DOUBLE);
   COVER(c.li.strict && c.li.has_dot && c.li.has_e);
   COVER(!c.li.lenient && c.n > 5 && c.li.nexp > 0);
+  COVER(!c.li.lenient && c.li.E > 400); /* garbage behind a huge exponent */
+  COVER(c.li.lenient && !c.li.strict);  /* an empty digit group */
   CHECK(c.r.type_ <= NT_DOUBLE, "the result kind is one of the five");
   CHECK(c.s[c.n] == 0, "the string is not modified");
   CHECK(!c.li.strict || c.r.type_ != NT_INVALID, "every spelling of the number grammar is accepted");
-  /* (an exponent beyond the range makes the routine answer before it has seen the rest of the string: obligation
-   * grammar_rejects_garbage_behind_a_huge_exponent; here the exponent digits stay small) */
-  CHECK(c.li.lenient || OPTION_LETTER(c) || c.li.E > 200 || c.r.type_ == NT_INVALID, "everything outside the grammar with possibly empty digit groups (exponent digits up to 200) is Invalid");
+  CHECK(c.li.strict || OPTION_LETTER(c) || c.r.type_ == NT_INVALID, "everything outside [+-]? (digits ('.' digits?)? | '.' digits) ([eE][+-]?digits)? is Invalid");
   pn_done(&c);
 }
 #endif /* UNIT_PN || UNIT_PNLOOP */
@@ -698,7 +685,7 @@ void h_lemma_readings_agree(void) {
 #define LONG_K 700
 #endif
 #ifndef LONG_CHECKS
-#define LONG_CHECKS (CK_TABLE | CK_MAG)
+#define LONG_CHECKS (CK_TABLE | CK_MAG | CK_INF_EXIT)
 #endif
 void h_long_zeros(void) {
   struct pn_case c;
